@@ -1,4 +1,4 @@
-import IceProofs.Sys2C01LiveFairInv
+import IceProofs.Sys2C01LiveFairSys
 /-!
 # C01 liveness, layer 15 — following one datagram through a fair suffix
 
@@ -10,11 +10,11 @@ namespace IceProofs.C01Live
 open IceModel.AgentCore IceModel.Sys2 IceProofs.Sys2Run IceProofs.C01 IceProofs.Agent
 
 section
-variable {nat blocked : List (Nat × Nat)} {SLA SLB SR : Nat → Prop} {liteA liteB : Bool} {T0 H : Nat} {c : Bool}
+variable {nat blocked : List (Nat × Nat)} {SLA SLB SR : Nat → Prop} {liteA liteB : Bool} {T0 H J : Nat} {c : Bool}
 
-theorem FInv.run {s : Sys} (h : FInv nat blocked SLA SLB SR liteA liteB T0 H c s) {e : SysEv} (he : sufOK c H s e) :
-    FInv nat blocked SLA SLB SR liteA liteB T0 H c (Sys.run s e) := by
-  have key : ∀ (k : Nat) (keep : Bool), FInv nat blocked SLA SLB SR liteA liteB T0 H c (s.deliver k keep).1 := by
+theorem FInv.run {s : Sys} (h : FInv nat blocked SLA SLB SR liteA liteB T0 H J c s) {e : SysEv} (he : sufOK c H J s e) :
+    FInv nat blocked SLA SLB SR liteA liteB T0 H J c (Sys.run s e) := by
+  have key : ∀ (k : Nat) (keep : Bool), FInv nat blocked SLA SLB SR liteA liteB T0 H J c (s.deliver k keep).1 := by
     intro k keep
     cases hk : s.inflight[k]? with
     | none =>
@@ -30,14 +30,14 @@ theorem FInv.run {s : Sys} (h : FInv nat blocked SLA SLB SR liteA liteB T0 H c s
     obtain ⟨h1, h2, t, ht, hT⟩ := he
     exact (FInv.advance h h1 h2 ht hT).1
 
-theorem FInv.runs {s : Sys} (h : FInv nat blocked SLA SLB SR liteA liteB T0 H c s) {es : List SysEv} (he : SufOK c H s es) :
-    FInv nat blocked SLA SLB SR liteA liteB T0 H c (Sys.runs s es) := by
+theorem FInv.runs {s : Sys} (h : FInv nat blocked SLA SLB SR liteA liteB T0 H J c s) {es : List SysEv} (he : SufOK c H J s es) :
+    FInv nat blocked SLA SLB SR liteA liteB T0 H J c (Sys.runs s es) := by
   induction es generalizing s with
   | nil => exact h
   | cons e es ih => exact ih (h.run he.1) he.2
 
 /-- the clock never goes back along a suffix -/
-theorem now_le_run {s : Sys} (h : FInv nat blocked SLA SLB SR liteA liteB T0 H c s) {e : SysEv} (he : sufOK c H s e) :
+theorem now_le_run {s : Sys} (h : FInv nat blocked SLA SLB SR liteA liteB T0 H J c s) {e : SysEv} (he : sufOK c H J s e) :
     s.now ≤ (Sys.run s e).now := by
   have key : ∀ (k : Nat) (keep : Bool), s.now ≤ (s.deliver k keep).1.now := by
     intro k keep
@@ -57,7 +57,7 @@ theorem now_le_run {s : Sys} (h : FInv nat blocked SLA SLB SR liteA liteB T0 H c
     show s.now ≤ (s.advance T).1.now
     rw [this]; exact h1
 
-theorem now_le_runs {s : Sys} (h : FInv nat blocked SLA SLB SR liteA liteB T0 H c s) {es : List SysEv} (he : SufOK c H s es) :
+theorem now_le_runs {s : Sys} (h : FInv nat blocked SLA SLB SR liteA liteB T0 H J c s) {es : List SysEv} (he : SufOK c H J s es) :
     s.now ≤ (Sys.runs s es).now := by
   induction es generalizing s with
   | nil => exact Nat.le_refl _
@@ -98,15 +98,15 @@ theorem getElem?_restOf_ne {s : Sys} {k i : Nat} {d : Dgram} (keep : Bool) (hki 
 
 /-- **leads-to.** -/
 theorem track {P Q : Sys → Prop} {D : Sys → Dgram → Prop} {dl : Nat}
-    (keepD : ∀ (s s' : Sys) (hd : Dgram) (t : List Dgram), FInv nat blocked SLA SLB SR liteA liteB T0 H c s →
+    (keepD : ∀ (s s' : Sys) (hd : Dgram) (t : List Dgram), FInv nat blocked SLA SLB SR liteA liteB T0 H J c s →
       Effect T0 s s' hd t → hd ∈ s.inflight → P s → P s')
-    (keepA : ∀ (s s' : Sys) (T : Nat), FInv nat blocked SLA SLB SR liteA liteB T0 H c s → AdvEffect T0 T s s' → T ≤ dl → P s → P s')
+    (keepA : ∀ (s s' : Sys) (T : Nat), FInv nat blocked SLA SLB SR liteA liteB T0 H J c s → AdvEffect T0 T s s' → T ≤ dl → P s → P s')
     (dD : ∀ (s s' : Sys) (hd : Dgram) (t : List Dgram) (d : Dgram), Effect T0 s s' hd t → D s d → D s' d)
     (dA : ∀ (s s' : Sys) (T : Nat) (d : Dgram), AdvEffect T0 T s s' → D s d → D s' d)
-    (hit : ∀ (s s' : Sys) (d : Dgram) (t : List Dgram), FInv nat blocked SLA SLB SR liteA liteB T0 H c s →
+    (hit : ∀ (s s' : Sys) (d : Dgram) (t : List Dgram), FInv nat blocked SLA SLB SR liteA liteB T0 H J c s →
       Effect T0 s s' d t → d ∈ s.inflight → P s → D s d → Q s')
-    (es : List SysEv) (s : Sys) (i : Nat) (d : Dgram) (h : FInv nat blocked SLA SLB SR liteA liteB T0 H c s)
-    (hs : SufOK c H s es) (hp : P s) (hi : s.inflight[i]? = some d) (hd : D s d) (hdel : DeliveredBy dl s es i) :
+    (es : List SysEv) (s : Sys) (i : Nat) (d : Dgram) (h : FInv nat blocked SLA SLB SR liteA liteB T0 H J c s)
+    (hs : SufOK c H J s es) (hp : P s) (hi : s.inflight[i]? = some d) (hd : D s d) (hdel : DeliveredBy dl s es i) :
     ∃ e1 e2, es = e1 ++ e2 ∧ Q (Sys.runs s e1) ∧ (Sys.runs s e1).now ≤ dl := by
   induction es generalizing s i with
   | nil => exact hdel.elim
@@ -148,7 +148,7 @@ theorem track {P Q : Sys → Prop} {D : Sys → Dgram → Prop} {dl : Nat}
         · cases hf
         · exact ih s i h hs' hp hi hd hdel'
       | some hd' =>
-        obtain ⟨h', eff, _, _⟩ := FInv.deliver h keep hk
+        obtain ⟨h', eff, _⟩ := FInv.deliver h keep hk
         have hmem : hd' ∈ s.inflight := List.mem_of_getElem? hk
         by_cases hki : k = i
         · subst hki
